@@ -202,6 +202,22 @@ func luaValue(r *Rand, depth int) string {
 }
 
 func GenLua(r *Rand, id string) string {
+	if r.Chance(1, 3) {
+		// data defined as globals (what --lua-globals writes); some values lean on globals that may not exist
+		var g strings.Builder
+		fmt.Fprintf(&g, "id = \"%s\";\n", id)
+		for _, k := range []string{"a", "replicas", "name", "flag"} {
+			switch r.Intn(4) {
+			case 0:
+				fmt.Fprintf(&g, "%s = %d;\n", k, r.Range(0, 99))
+			case 1:
+				fmt.Fprintf(&g, "%s = %s or %d;\n", k, Pick(r, []string{"a", "replicas", "name", "flag", "other"}), r.Range(0, 9))
+			case 2:
+				fmt.Fprintf(&g, "%s = \"%s\";\n", k, simpleWord(r))
+			}
+		}
+		return g.String()
+	}
 	var b strings.Builder
 	if r.Chance(1, 4) {
 		b.WriteString("-- lua comment\n")
